@@ -9,7 +9,7 @@ from vx.units._cread import add_classread
 PROPS = ['C01']
 P = 'duke/src/class_reader/pool.rs'
 CC = 'duke/src/class_constants.rs'
-RLIMIT = 60
+RLIMIT = 200
 
 SPEC = r'''
 // TRUSTED: VJavaString stands in for java_string::JavaString (an external crate type): it only remembers the bytes it was decoded from
